@@ -131,6 +131,13 @@ Definition und_igamma2 (E : R) : R := if Req_EM_T (gamma_of E) 0 then 0 else 1 /
 Definition und_map (L E : R) : M7 R :=
   mk7 (row 1 L 0 0 0 0 0) (row 0 1 0 0 0 0 0) (row 0 0 1 L 0 0 0) (row 0 0 0 1 0 0 0)
       (row 0 0 0 0 1 (L * und_igamma2 E) 0) (row 0 0 0 0 0 1 0) (row 0 0 0 0 0 0 1).
+(** Undulator.transfer_map after the repair of finding F3:
+      _, igamma2, beta = compute_relativistic_factors(energy);  tm[4,5] = -length / beta**2 * igamma2
+    ([und_map] above is the map BEFORE the repair; which of the two the working tree computes is decided on every
+    run by the correspondence harness, see harness/optics.py and Optics/UndFixed.v) *)
+Definition und_map_fixed (L E : R) : M7 R :=
+  mk7 (row 1 L 0 0 0 0 0) (row 0 1 0 0 0 0 0) (row 0 0 1 L 0 0 0) (row 0 0 0 1 0 0 0)
+      (row 0 0 0 0 1 (- L / (beta_of E)² * igamma2_of E) 0) (row 0 0 0 0 0 1 0) (row 0 0 0 0 0 0 1).
 
 (** Cavity.transfer_map at voltage = 0: base_rmatrix(k1=0, hx=0, tilt=0) *)
 Definition cavity_off_map (L E : R) : M7 R := base_rmatrix L 0 0 0 E.
